@@ -22,17 +22,18 @@ struct FaultSpec {
     int64_t fail_write_call = -1;  // n-th (1-based) write call of this op returns -1/fail_errno
     int fail_errno = 5;            // EIO
     bool dest_is_dir = false;      // the destination path of this save is an existing directory (open: EISDIR; rename onto it: EISDIR)
+    int64_t fail_seek_call = -1;   // n-th (1-based) lseek of this op returns -1/ESPIPE; 0 = every lseek fails (the destination is not seekable: FIFO, terminal)
     // benign faults (percent of calls), driven by benign_seed
     uint64_t benign_seed = 0;
     unsigned short_write_pct = 0, eintr_pct = 0, short_read_pct = 0;
-    bool any_hard() const { return open_errno || byte_budget >= 0 || fail_write_call >= 0 || dest_is_dir; }
+    bool any_hard() const { return open_errno || byte_budget >= 0 || fail_write_call >= 0 || dest_is_dir || fail_seek_call >= 0; }
     bool any_benign() const { return short_write_pct || eintr_pct || short_read_pct; }
 };
 
 struct OpStats {
     uint64_t opens = 0, write_calls = 0, bytes_accepted = 0, read_calls = 0, bytes_read = 0, seeks = 0;
     uint64_t f_open_fail = 0, f_budget = 0, f_eio = 0, f_short_write = 0, f_eintr_w = 0, f_eintr_r = 0,
-             f_short_read = 0;
+             f_short_read = 0, f_seek = 0, seek_calls_w = 0;
     bool hard_fired = false;
 };
 
@@ -40,7 +41,7 @@ struct OpStats {
 struct DiskTotals {
     uint64_t opens = 0, write_calls = 0, read_calls = 0, seeks = 0, bytes_written = 0, bytes_read = 0;
     uint64_t f_open_fail = 0, f_budget = 0, f_eio = 0, f_short_write = 0, f_eintr_w = 0, f_eintr_r = 0,
-             f_short_read = 0;
+             f_short_read = 0, f_seek = 0;
 };
 
 bool disk_is_simulated();                       // false in the C19 driver (real directory)
